@@ -154,7 +154,11 @@ Print Assumptions C19_recv_queued_full_any_schedule.
    values.  [parked_after]: the first min(m,|sq|) parked senders have completed,
    in order; the rest of the queue is still there (front b' in the buffer,
    b' ++ skipn m sq = skipn m (b ++ sq), tail skipn m sq still parked); the log
-   gained exactly those receives by the helper and those completed sends. *)
+   gained exactly those receives by the helper and those completed sends.
+   There is deliberately NO [wf] hypothesis: the statement therefore also covers
+   channel states the Go runtime cannot reach (e.g. senders parked although the
+   buffer has room, or parked receivers next to buffered values); that is
+   harmless generality, the reachable states are the instances with [wf]. *)
 Theorem C19_recv_queued_alone_parked : forall (V : Type) (zero : V) (b sq : list V) (cp : nat) (cl : bool) (rq : nat)
     (dn : bool) (lg : list (event V)) (m : Z) (choices : list bool),
   Z.to_nat m + 1 <= length choices ->
@@ -176,7 +180,8 @@ Theorem C19_recv_queued_full_alone_parked : forall (V : Type) (zero : V) (b sq :
 Proof. exact @recv_queued_full_alone_parked. Qed.
 Print Assumptions C19_recv_queued_full_alone_parked.
 
-(* Corollaries (sq = []), with the final world and log written out. *)
+(* Corollaries (sq = []), with the final world and log written out.  No [wf]
+   hypothesis here either (rq > 0 next to a non-empty b is not runtime-reachable). *)
 (* no other goroutine on the channel: every capacity, contents b, open/closed
    state and limit m; any m+1 own steps give exactly firstn m b, leave skipn m
    b, log one receive per value and change nothing else *)
@@ -275,5 +280,10 @@ Example C19_parked_example :
        PRet (RList [1; 2; 3; 4]%Z)) /\
   run 0%Z (map AHelp [true; true; true; true]) (World (Chan ([] : list Z) 0 false [7; 8]%Z 0) false [], RecvQueuedFull [9; 9; 9]%Z)
     = (World (Chan [] 0 false [] 0) false [Sent Env 7%Z; Rcvd Helper 7%Z; Sent Env 8%Z; Rcvd Helper 8%Z],
-       PRet (RFull 2 [7; 8; 9]%Z)).
-Proof. vm_compute. repeat split. Qed.
+       PRet (RFull 2 [7; 8; 9]%Z))
+  /\
+  (* the same instance in the terms of the theorem: senders 3,4,5 completed, 5 sits in the buffer, nobody parked *)
+  parked_after [1; 2]%Z [3; 4; 5]%Z 2 false 0 false [] 4
+    (World (Chan [5]%Z 2 false [] 0) false
+       [Rcvd Helper 1%Z; Sent Env 3%Z; Rcvd Helper 2%Z; Sent Env 4%Z; Rcvd Helper 3%Z; Sent Env 5%Z; Rcvd Helper 4%Z]).
+Proof. exact parked_example. Qed.
